@@ -11,24 +11,33 @@ EXTENDS Mailstore, Json, TLC, TLCExt, IOUtils
 
 TraceLog == TLCEval(ndJsonDeserialize(IOEnv.VERIF_TRACE))
 
-(* deviation keys enabled by known_findings.txt, passed as a comma list *)
-AllowedStr == IF "VERIF_ALLOWED" \in DOMAIN IOEnv THEN IOEnv.VERIF_ALLOWED ELSE ""
 Has(f, ev)  == f \in DOMAIN ev
+(* deviation keys enabled by known_findings.txt: one JSON object {"key": ...} per line *)
+AllowedKeys == {r.key : r \in ToSet(ndJsonDeserialize(IOEnv.VERIF_ALLOWED_FILE))}
 TraceMailboxes == TLCEval({TraceLog[i].mb : i \in {j \in DOMAIN TraceLog : Has("mb", TraceLog[j])}})
 
-VARIABLE l
-tvars == <<boxes, used, arrival, cap, limit, l>>
+VARIABLES l,
+          exp      \* C16: the after-events the contract expects so far, in order
+tvars == <<boxes, used, arrival, cap, limit, l, exp>>
 
 Ev == TraceLog[l]
 Is(a) == l <= Len(TraceLog) /\ Ev.a = a /\ l' = l + 1
-Mark  == TLCSet(1, l + 1)                 \* high-water mark (last conjunct of every action)
+(* every step: what entered a mailbox must be announced by one "stored",   *)
+(* what left it (for whatever reason) by one "deleted" event (C16)         *)
+(* SetToSeq (SequencesExt): some sequence enumerating the set *)
+StepEvents ==
+    LET new  == UNION {{[k |-> "stored", mb |-> m, id |-> i] : i \in used'[m] \ used[m]} : m \in Mailbox}
+        gone == UNION {{[k |-> "deleted", mb |-> m, id |-> i] : i \in (Ids(boxes, m) \cup (used'[m] \ used[m])) \ Ids(boxes', m)} : m \in Mailbox}
+    IN  SetToSeq(new) \o SetToSeq(gone)
+Mark  == /\ exp' = IF Ev.a = "reset" THEN <<>> ELSE exp \o StepEvents
+         /\ TLCSet(1, l + 1)              \* high-water mark (last conjunct of every action)
 
 Snap(b) == {[mb |-> m, msgs |-> b[m]] : m \in {x \in Mailbox : b[x] # <<>>}}
 SnapOK(b) == /\ Ev.serr = <<>>
              /\ Len(Ev.s) = Cardinality(Snap(b))
              /\ ToSet(Ev.s) = Snap(b)
 
-TraceInit == /\ l = 1
+TraceInit == /\ l = 1 /\ exp = <<>>
              /\ Init(0, 0)
 
 TrReset == /\ Is("reset")
@@ -86,7 +95,31 @@ TrProbe == /\ Is("probe") /\ Ev.r = "ok"
 TrReopen == /\ Is("reopen") /\ Ev.r = "ok"
             /\ Reopen(Ev.cap) /\ SnapOK(boxes) /\ Mark
 
-TraceNext == \/ TrReset \/ TrAdd \/ TrSeen \/ TrRemove \/ TrPurge \/ TrScan
+(* C16: the events a listener received during the behaviour               *)
+Obs == Ev.evs
+Key(e) == [k |-> e.k, mb |-> e.mb, id |-> e.id]
+Count(seq, r) == Cardinality({i \in DOMAIN seq : seq[i] = r})
+ExactlyOnce ==
+    LET o == [i \in DOMAIN Obs |-> Key(Obs[i])]
+    IN  \A r \in ToSet(o) \cup ToSet(exp) : Count(o, r) = Count(exp, r)
+NoOverlap == \A i, j \in DOMAIN Obs : i # j => (Obs[i].ex < Obs[j].en \/ Obs[j].ex < Obs[i].en)
+StoredBeforeDeleted ==
+    \A i, j \in DOMAIN Obs :
+       (Obs[i].k = "stored" /\ Obs[j].k = "deleted" /\ Obs[i].mb = Obs[j].mb /\ Obs[i].id = Obs[j].id) => Obs[i].en < Obs[j].en
+(* stored events of one mailbox are seen in arrival order (= order expected) *)
+ArrivalOrder ==
+    \A i, j \in DOMAIN Obs :
+       (Obs[i].k = "stored" /\ Obs[j].k = "stored" /\ Obs[i].mb = Obs[j].mb /\ Obs[i].en < Obs[j].en) =>
+          \A a, b \in DOMAIN exp : (exp[a] = Key(Obs[i]) /\ exp[b] = Key(Obs[j])) => a < b
+Dev(key) == /\ key \in AllowedKeys
+            /\ PrintT(<<"DEVIATION", key, l>>)
+TrEvents == /\ Is("events")
+            /\ ExactlyOnce
+            /\ NoOverlap \/ Dev("C16.async-broker.overlapping-invocations")
+            /\ (StoredBeforeDeleted /\ ArrivalOrder) \/ Dev("C16.async-broker.reordered-invocations")
+            /\ UNCHANGED svars /\ SnapOK(boxes) /\ Mark
+
+TraceNext == \/ TrEvents \/ TrReset \/ TrAdd \/ TrSeen \/ TrRemove \/ TrPurge \/ TrScan
              \/ TrGet \/ TrLatest \/ TrList \/ TrVisit \/ TrReopen \/ TrProbe
 
 TraceSpec == TraceInit /\ [][TraceNext]_tvars
